@@ -255,8 +255,12 @@ impl Indexable for ast::Defset {
         let defset_id = ctx.symbol_map.add_defset(defset);
 
         ctx.scopes.push(ScopeKind::Defset(defset_id));
-        self.statement_list()?.index(ctx);
+        if let Some(list) = self.statement_list() {
+            list.index(ctx);
+        }
         ctx.scopes.pop();
+        // the set is a global value once it is complete
+        ctx.symbol_map.register_defset_name(defset_id);
 
         None
     }
